@@ -105,4 +105,51 @@ theorem roundRat_le (num1 den1 num2 den2 : Nat) (hd1 : 0 < den1) (hd2 : 0 < den2
   simp only [Bool.not_false, Bool.true_and, decide_eq_true_eq]
   exact Int.ofNat_le.2 hm
 
+/-! ### negative values -/
+
+/-- the sign only sets the top bit: rounding is symmetric -/
+theorem roundPack_neg (n : Nat) (e : Int) : roundPack true n e = roundPack false n e ||| 0x8000000000000000 := by
+  rw [roundPack_eq, roundPack_eq]
+  split
+  · decide
+  · unfold rpFinish
+    split
+    · dsimp only
+      split
+      · decide
+      · simp
+    · simp
+
+theorem roundRat_neg (num den : Nat) : roundRat true num den = roundRat false num den ||| 0x8000000000000000 := by
+  unfold roundRat
+  split
+  · decide
+  · exact roundPack_neg _ _
+
+theorem roundDec_neg (m : Nat) (ex : Int) : roundDec true m ex = roundDec false m ex ||| 0x8000000000000000 := by
+  unfold roundDec; split <;> exact roundRat_neg _ _
+
+/-- key of a negative rounding = − key of the positive one -/
+theorem key_neg_of (a : F64) (h : a.toNat ≤ 2047 * 2 ^ 52) : F64.key (a ||| 0x8000000000000000) = -(a.toNat : Int) := by
+  rw [F64.key_eq, UInt64.toNat_or]
+  have h2 : (0x8000000000000000 : UInt64).toNat = 2 ^ 63 * 1 := by decide
+  rw [h2, Nat.or_comm, ← Nat.two_pow_add_eq_or_of_lt (by omega)]
+  have h1 : (2 ^ 63 * 1 + a.toNat) / 2 ^ 63 = 1 := by omega
+  rw [if_pos h1]
+  have : (2 ^ 63 * 1 + a.toNat) % 2 ^ 63 = a.toNat := by omega
+  rw [this]
+
+/-- monotone for negative values too: −(num2/den2) ≤ −(num1/den1) when num1/den1 ≤ num2/den2 -/
+theorem roundRat_neg_le (num1 den1 num2 den2 : Nat) (hd1 : 0 < den1) (hd2 : 0 < den2) (h : num1 * den2 ≤ num2 * den1) :
+    F64.key (roundRat true num2 den2) ≤ F64.key (roundRat true num1 den1) := by
+  rw [roundRat_neg, roundRat_neg, key_neg_of _ (roundRat_toNat_le num1 den1 hd1), key_neg_of _ (roundRat_toNat_le num2 den2 hd2)]
+  have := roundRat_mono num1 den1 num2 den2 hd1 hd2 h
+  omega
+
+/-- a negative rounding is never above a positive one -/
+theorem roundRat_neg_le_pos (num1 den1 num2 den2 : Nat) (hd1 : 0 < den1) (hd2 : 0 < den2) :
+    F64.key (roundRat true num1 den1) ≤ F64.key (roundRat false num2 den2) := by
+  rw [roundRat_neg, key_neg_of _ (roundRat_toNat_le num1 den1 hd1), (nonneg_facts _ (roundRat_toNat_le num2 den2 hd2)).2]
+  omega
+
 end NodisVerif.Proofs.FloatDecMono
